@@ -24,7 +24,11 @@ RULE = ("archives whose header string fields carry arbitrary bytes 0x01..0xFF: i
         "stdout and stderr is in {0x20..0x7E, LF, CR, TAB}. Plus safe_printf itself on every single byte and random strings (C = model). "
         "non-trivial: a hostile byte reaches a field that the mode prints")
 
-MODES = ["l", "lv", "v", "vv", "t", "tq", "xqf", "xq0f", "xq1f", "xf", "xn", "p", "pq", "pn", "tn"]
+MODES = ["l", "lv", "v", "vv", "t", "tq", "xqf", "xq0f", "xq1f", "xf", "xn", "p", "pq", "pn", "tn",
+         # second extraction into the same directory, overwrite policy "prompt", with scripted answers on standard input: the prompt,
+         # "Skipped..." and "but file is exist" lines carry the names of members that already exist
+         "x+s", "x+a", "x+n", "x+y", "x+junk", "xn+", "e+s"]
+ANSWERS = {"s": b"s\n", "a": b"a\n", "n": b"n\n" * 12, "y": b"y\n" * 12, "junk": b"zz\n\x1b\n\ny\ns\n", "": b""}
 ALLOWED = set(range(0x20, 0x7f)) | {0x0a, 0x0d, 0x09}
 
 
@@ -130,7 +134,12 @@ def run_cli18(env, ctx, op):
         ap = os.path.join(d, "a.lzh")
         open(ap, "wb").write(data)
         wd = os.path.join(d, "w"); os.mkdir(wd)
-        if how == "file":
+        if "+" in mode:
+            # first a quiet forced extraction, then the same archive again with the prompt policy and scripted answers
+            core.run_cli(env["lha"], ["xqf", ap], wd, stdin_data=b"")
+            m2, ans = mode.split("+")
+            rc, so, se, verdict = core.run_cli(env["lha"], [m2, ap], wd, stdin_data=ANSWERS[ans])
+        elif how == "file":
             rc, so, se, verdict = core.run_cli(env["lha"], [mode, ap], wd, stdin_data=b"")
         else:
             rc, so, se, verdict = core.run_cli(env["lha"], [mode, "-"], wd, stdin_data=data)
